@@ -669,3 +669,27 @@ seed('c14-dubins-reverse-loop-skips-first-segment', 'C14', [(DUB, "        for (
 seed('c14-n-dubins-reverse-loop-counts-down', 'C14', [(DUB, "        for (unsigned int i = 0; i < 3 && seg > 0; ++i)\n        {\n            v = std::min(seg, path.length_[2 - i]);\n            phi = s->getYaw();\n            seg -= v;\n            switch (path.type_->at(2 - i))", "        for (unsigned int i = 3; i > 0 && seg > 0; --i)\n        {\n            v = std::min(seg, path.length_[i - 1]);\n            phi = s->getYaw();\n            seg -= v;\n            switch (path.type_->at(i - 1))")], None)
 seed('c04-n-aitstar-registry-before-snapshot', 'C04', [(AITC, "                    // Remember the incumbent cost.\n                    solutionCost_ = goal->getCostToComeFromStart();", "                    // Remember the incumbent cost.\n                    const bool hadExact = pdef_->hasExactSolution();\n                    solutionCost_ = goal->getCostToComeFromStart();\n                    if (!hadExact)\n                        OMPL_DEBUG(\"first exact solution\");", 0)], None)
 seed('c03-lbtrrt-preserves-approximate-node', 'C03', [(LBTC, "        if (!approximate)\n            lastGoalMotion_ = solution;\n", "        lastGoalMotion_ = solution;\n")], 'R03t')
+# ---- round-6 rules ------------------------------------------------------------------------------------------------
+ATLC = 'src/ompl/base/spaces/constraint/src/AtlasStateSpace.cpp'
+APSC = 'src/ompl/geometric/planners/AnytimePathShortening.cpp'
+GSTC = 'src/ompl/base/goals/src/GoalStates.cpp'
+EITC = 'src/ompl/geometric/planners/informedtrees/src/EITstar.cpp'
+RNRM = 'src/ompl/multilevel/datastructures/projections/src/RN_RM.cpp'
+GSSTC = 'src/ompl/geometric/planners/sst/src/SST.cpp'
+CPDC = 'src/ompl/control/src/PlannerData.cpp'
+seed('c05-dubins-validators-precompute-path', 'C05', [(DUB, "    bool result = true, firstTime = true;\n    DubinsStateSpace::DubinsPath path;\n    int nd = stateSpace_->validSegmentCount(s1, s2);\n\n    if (nd > 1)", "    bool result = true, firstTime = false;\n    DubinsStateSpace::DubinsPath path = stateSpace_->dubins(s1, s2);\n    int nd = stateSpace_->validSegmentCount(s1, s2);\n\n    if (nd > 1)"), (DUB, "    bool result = true, firstTime = true;\n    DubinsStateSpace::DubinsPath path;\n    int nd = stateSpace_->validSegmentCount(s1, s2);\n\n    /* initialize the queue of test positions */", "    bool result = true, firstTime = false;\n    DubinsStateSpace::DubinsPath path = stateSpace_->dubins(s1, s2);\n    int nd = stateSpace_->validSegmentCount(s1, s2);\n\n    /* initialize the queue of test positions */")], 'R05d')
+seed('c16-atlas-geodesic-verdict-without-flag', 'C16', [(ATLC, "    const bool ret = done && distance(to, scratch) <= delta_;", "    const bool ret = distance(to, scratch) <= delta_;")], 'R16g')
+seed('c16-n-atlas-geodesic-verdict-if-form', 'C16', [(ATLC, "    const bool ret = done && distance(to, scratch) <= delta_;", "    bool ret = false;\n    if (done)\n        ret = distance(to, scratch) <= delta_;")], None)
+seed('c19-aps-worker-clears-shared-registry', 'C19', [(APSC, "            planner->clear();\n            pdef->clearSolutionPaths();\n            break;", "            planner->clear();\n            pdef_->clearSolutionPaths();\n            break;")], 'R19g')
+seed('c03-goalstates-position-wrapped-eagerly', 'C03', [(GSTC, "    samplePosition_++;\n}", "    samplePosition_ = (samplePosition_ + 1) % states_.size();\n}")], 'R03x')
+seed('c03-n-goalstates-position-plus-one', 'C03', [(GSTC, "    samplePosition_++;\n}", "    samplePosition_ = samplePosition_ + 1;\n}")], None)
+seed('c03-prm-clearquery-update-only', 'C03', [(PRMC, "    goalM_.clear();\n    pis_.restart();\n}\n\nvoid ompl::geometric::PRM::clear()", "    goalM_.clear();\n    pis_.update();\n}\n\nvoid ompl::geometric::PRM::clear()")], 'R03v')
+seed('c03-eitstar-clearquery-keeps-queues', 'C03', [(EITC, "            if (setup_)\n            {\n                forwardQueue_->clear();\n                reverseQueue_->clear();\n                startVertices_.clear();\n                goalVertices_.clear();\n                graph_.clearQuery();", "            if (setup_)\n            {\n                startVertices_.clear();\n                goalVertices_.clear();\n                graph_.clearQuery();")], 'R03v')
+seed('c01-aitstar-reregister-folds-incumbent', 'C01', [(AITC, "                    solutionCost_ = goal->getCostToComeFromStart();", "                    solutionCost_ = objective_->betterCost(solutionCost_, goal->getCostToComeFromStart());", 0)], 'R01y')
+seed('c01-rnrm-fiber-bounds-offset', 'C01', [(RNRM, "        Fiber_bounds.setLow(k, Bundle_bounds.low.at(k + N0));\n        Fiber_bounds.setHigh(k, Bundle_bounds.high.at(k + N0));", "        Fiber_bounds.setLow(k, Bundle_bounds.low.at(k + NX));\n        Fiber_bounds.setHigh(k, Bundle_bounds.high.at(k + NX));")], 'R01z')
+seed('c01-n-rnrm-fiber-bounds-offset-spelled-out', 'C01', [(RNRM, "        Fiber_bounds.setLow(k, Bundle_bounds.low.at(k + N0));\n        Fiber_bounds.setHigh(k, Bundle_bounds.high.at(k + N0));", "        Fiber_bounds.setLow(k, Bundle_bounds.low.at(getBaseDimension() + k));\n        Fiber_bounds.setHigh(k, Bundle_bounds.high.at(getBaseDimension() + k));")], None)
+seed('c01-sst-approx-path-kept-from-exact', 'C01', [(GSSTC, "                    approxdif = dist;\n                    approxsol = motion;\n\n                    for (auto &i : prevSolution_)", "                    approxdif = dist;\n                    approxsol = motion;\n                }\n                if (approxsol == motion && !opt_->isFinite(prevSolutionCost_))\n                {\n                    for (auto &i : prevSolution_)")], 'R01A')
+seed('c02-plannerdata-decouple-early-return', 'C02', [(CPDC, "    ompl::base::PlannerData::decoupleFromPlanner();\n", "    ompl::base::PlannerData::decoupleFromPlanner();\n    if (decoupledControls_.size() == numEdges())\n        return;\n")], 'R02m')
+seed('c09-decouple-erases-clone-key', 'C09', [(PDC, "            stateIndexMap_.erase(oldState);", "            stateIndexMap_.erase(vtx.getState());")], 'R09n')
+seed('c15-phs-chosen-once-per-call', 'C15', [(PLDC, "            while (!foundSample && *iters < InformedSampler::numIters_)\n            {\n                // Variables\n                // The informed subset of the sample as a vector\n                std::vector<double> informedVector(informedSubSpace_->getDimension());\n                // The random PHS in use for this sample.\n                ProlateHyperspheroidCPtr phsCPtr = randomPhsPtr();\n", "            std::vector<double> informedVector(informedSubSpace_->getDimension());\n            ProlateHyperspheroidCPtr phsCPtr = randomPhsPtr();\n            while (!foundSample && *iters < InformedSampler::numIters_)\n            {\n")], 'R15j')
+seed('c20-spherical-engine-by-value', 'C20', [(RNC, "using variate_generator_t = boost::variate_generator<std::mt19937 *, spherical_dist_t>;", "using variate_generator_t = boost::variate_generator<std::mt19937, spherical_dist_t>;"), (RNC, "std::make_shared<variate_generator_t>(generatorPtr_, *dimVector_.at(dim).first);", "std::make_shared<variate_generator_t>(*generatorPtr_, *dimVector_.at(dim).first);")], 'R20f')
